@@ -32,7 +32,26 @@ def check(c):
     rs = c.func('task_state', 'TaskState.reset')
     for s in c.stores(rs, 'status'):
         c.guard('C29.no-forced-active', s.node, [AnyOf(
-            '!forced', "!(req in ['submitted', 'running'])")], rs)
+            '!forced', "!(status in ['submitted', 'running'])")], rs)
+    # a manually set failed / submit-failed output is definitive: it never
+    # turns into an automatic retry (which would leave the output incomplete,
+    # the children unspawned and the task heading for submission)
+    rts = c.calls(TEM, '_retry_task')
+    c.floor('C29.no-forced-retry', '_retry_task call sites', len(rts), 2)
+    for n in rts:
+        f = c.owner(n)
+        if 'forced' not in [a.arg for a in f.node.args.args]:
+            # a handler without the flag must not be entered at all for a
+            # forced output (`if forced or self._handler(...)`)
+            sites = c.calls(TEM, f.name)
+            c.floor('C29.no-forced-retry', f'callers of {f.name}',
+                    len(sites), 1)
+            for s in sites:
+                c.guard('C29.no-forced-retry', s, ['!forced'], c.owner(s),
+                        what=f'{f.name} is skipped for a forced output;')
+            continue
+        c.guard('C29.no-forced-retry', n, ['!forced'], f,
+                what='retries only for real job failures;')
     pm = c.func(TEM, 'TaskEventsManager.process_message')
     sub = c.find(pm, 'self._process_message_submitted(itask, event_time)')
     c.exactly('C29.no-forced-active', '_process_message_submitted call',
